@@ -29,11 +29,12 @@ prop("C10", [
     S(REASM, "^TestC10(Timed)?Regress$", kind="plain"),
     S(REASM, "^TestC10$", q=20000, t=200000, shards=16),
     S(REASM, "^TestC10Timed$", q=3000, t=40000, shards=16),
+    S(REASM, "^TestC10Large$", kind="plain", timeout_t=3000),
 ], REASM_ASSUME + ["TestC10: timeout is 1h or more so that expiry cannot be a cause (as the property's quantifier says)",
                    "TestC10Timed: finite timeouts and real sleeps; only 'the timeout had definitely not elapsed' is asserted (harness clock read around every call)",
                    "sequence numbers of a history lie in one 2^24 window"],
    nontrivial_classes=["history-with-overflow-eviction", "history-with-complete-event-waiting", "timed-history-with-idle-period-before-push",
-                       "timed-history-with-delivery-after-possible-expiry"])
+                       "timed-history-with-delivery-after-possible-expiry", "large-buffer-history"])
 
 prop("C19", [
     S(REASM, "^TestC19Regress$", kind="plain"),
